@@ -16,7 +16,7 @@ from vlib.runner import HarnessError
 
 ID = "C02"
 TITLE = "Rejections report every violation once, at its location in the input"
-RULE = ("Hypothesis draws a type program, options and 4-10 data per type, 60% of them valid data with 2-5 mutations planted "
+RULE = ("In 30% of the cases every message of settings.errors is replaced by a custom text (the model uses the same texts).  Hypothesis draws a type program, options and 4-10 data per type, 60% of them valid data with 2-5 mutations planted "
         "at pairwise non-nested paths (sibling branches), the rest single mutants, atoms, random JSON.  Oracle: (a) when the "
         "reference model's complete error tree is fully specified (no union rejection, no wrong-length tuple, ...) "
         "err.errors must equal the model's list [(loc, message)] exactly, order included; (b) always: every loc is a real "
@@ -37,7 +37,18 @@ LEVEL_TEXT = ("Exploration: ~50k (quick) / ~1.5M (thorough) cases; exact compari
 LEVEL_NOTE = "Trusted: the reference model's error trees and message templates (vlib/model.py); custom settings.errors are not varied here."
 
 
+@st.composite
+def _with_custom_errors(draw, cases):
+    case = draw(cases)
+    case["opts"]["custom_errors"] = gen.chance(draw, 0.3)
+    return case
+
+
 def strategy(tier):
+    return _with_custom_errors(_strategy(tier))
+
+
+def _strategy(tier):
     cfg = {"max_depth": 3 if tier == "quick" else 4, "generics": True, "root_schema": True, "leaf_validators": True}
     return tdcase.td_cases(cfg, n_data=(4, 10), mix=(5, 20, 60, 15))
 
@@ -87,7 +98,7 @@ def real_path(d, loc, msg) -> bool:
             cur = cur[k]
         elif isinstance(cur, dict):
             if k not in cur:
-                return last and msg.startswith("missing property")
+                return last and msg.startswith(M.TEXT["missing"])
             cur = cur[k]
         else:
             return False
@@ -101,7 +112,12 @@ def evaluate(case, ctx):
     except Exception as e:
         raise HarnessError(f"generated program does not build: {e!r}\n{build.render(prog)}")
     try:
-        _evaluate(case, ctx, b, prog, opts)
+        if opts.get("custom_errors"):  # custom settings.errors messages, shared by the library and the model
+            with M.custom_errors():
+                ctx.h("custom_settings_errors")
+                _evaluate(case, ctx, b, prog, opts)
+        else:
+            _evaluate(case, ctx, b, prog, opts)
     finally:
         b.close()
 
